@@ -30,6 +30,7 @@ type Session struct {
 	curTimeout time.Duration
 	cutLists map[string]*cutList
 	NoSlices bool
+	OneStrategy bool
 	AbstractMul bool // print products of two symbolic terms as unconstrained bounded constants (over-approximation)
 	Seed    int
 	script  *strings.Builder // full transcript of the base level (for dumps)
@@ -218,6 +219,14 @@ func (s *Session) def(t *Term) string {
 				s.send(fmt.Sprintf("(assert %s)", body))
 			} else if s.AbstractMul {
 				s.send(fmt.Sprintf("(assert (=> (> %s 0) (and (<= 0 %s) (< %s %s))))", b, r, r, b))
+				// linear relaxation of a = q*b + r using the divisor's interval
+				bt, at := t.Args[1], t.Args[0]
+				if bt.Lo != nil && bt.Lo.Sign() > 0 && at.NonNeg() {
+					s.send(fmt.Sprintf("(assert (and (<= 0 %s) (<= (+ (* %s %s) %s) %s)))", q, lit(bt.Lo), q, r, a))
+					if bt.Hi != nil {
+						s.send(fmt.Sprintf("(assert (<= %s (+ (* %s %s) %s)))", a, lit(bt.Hi), q, r))
+					}
+				}
 			} else {
 				s.send(fmt.Sprintf("(assert (=> (> %s 0) %s))", b, body))
 			}
@@ -282,6 +291,22 @@ func (s *Session) def(t *Term) string {
 				if t.Hi != nil {
 					s.send(fmt.Sprintf("(assert (<= %s %s))", n, lit(t.Hi)))
 				}
+				// McCormick envelopes (linear relaxation of the product)
+				x, y := t.Args[0], t.Args[1]
+				if x.Lo != nil && x.Hi != nil && y.Lo != nil && y.Hi != nil {
+					mc := func(xb, yb *big.Int, ge bool) {
+						// m (>=|<=) xb*y + yb*x - xb*yb
+						op := "<="
+						if ge {
+							op = ">="
+						}
+						s.send(fmt.Sprintf("(assert (%s %s (+ (* %s %s) (* %s %s) %s)))", op, n, lit(xb), args[1], lit(yb), args[0], lit(new(big.Int).Neg(new(big.Int).Mul(xb, yb)))))
+					}
+					mc(x.Lo, y.Lo, true)
+					mc(x.Hi, y.Hi, true)
+					mc(x.Hi, y.Lo, false)
+					mc(x.Lo, y.Hi, false)
+				}
 				s.defined[t.ID] = n
 				return n
 			}
@@ -341,7 +366,36 @@ func family(c *big.Int) string {
 func (s *Session) defSlice(t *Term) string {
 	X := t.Args[0]
 	c := t.Args[1].C
-	xn := s.def(X)
+	// (B div m) mod c with m, c of one family: a slice of B itself
+	if t.Op == OMod && X.Op == ODiv && X.Args[1].IsConst() && family(c) == family(X.Args[1].C) && family(c) != "c"+c.String() {
+		B, m := X.Args[0], X.Args[1].C
+		top := new(big.Int).Mul(m, c)
+		cl := s.cutsFor(B, m)
+		s.ensureCut(cl, B, m)
+		s.ensureCut(cl, B, top)
+		var parts []string
+		for i, cc := range cl.cuts {
+			if cc.Cmp(m) >= 0 && cc.Cmp(top) < 0 {
+				f := new(big.Int).Quo(cc, m)
+				if f.Cmp(big1) == 0 {
+					parts = append(parts, cl.slices[i+1])
+				} else {
+					parts = append(parts, fmt.Sprintf("(* %s %s)", lit(f), cl.slices[i+1]))
+				}
+			}
+		}
+		e := parts[0]
+		if len(parts) > 1 {
+			e = "(+ " + strings.Join(parts, " ") + ")"
+		}
+		n := fmt.Sprintf("t%d", t.ID)
+		s.send(fmt.Sprintf("(define-fun %s () Int %s)", n, e))
+		return n
+	}
+	return s.defSlice1(t)
+}
+
+func (s *Session) cutsFor(X *Term, c *big.Int) *cutList {
 	key := fmt.Sprintf("%d/%s", X.ID, family(c))
 	if s.cutLists == nil {
 		s.cutLists = map[string]*cutList{}
@@ -350,6 +404,14 @@ func (s *Session) defSlice(t *Term) string {
 	if cl == nil {
 		cl = &cutList{}
 		s.cutLists[key] = cl
+	}
+	return cl
+}
+
+// ensureCut makes c a cut point of X's list and returns its index.
+func (s *Session) ensureCut(cl *cutList, X *Term, c *big.Int) int {
+	xn := s.def(X)
+	if len(cl.cuts) == 0 {
 		s0, s1 := s.freshName("sl"), s.freshName("sl")
 		s.send(fmt.Sprintf("(declare-const %s Int)(declare-const %s Int)", s0, s1))
 		s.send(fmt.Sprintf("(assert (= %s (+ %s (* %s %s))))", xn, s0, lit(c), s1))
@@ -357,43 +419,46 @@ func (s *Session) defSlice(t *Term) string {
 		s.boundTop(s1, X, c)
 		cl.cuts = []*big.Int{c}
 		cl.slices = []string{s0, s1}
+		return 0
 	}
-	// position of c
-	pos := -1
 	for i, cc := range cl.cuts {
 		if cc.Cmp(c) == 0 {
-			pos = i
+			return i
 		}
 	}
-	if pos < 0 {
-		// insert: find j = number of cuts below c
-		j := 0
-		for j < len(cl.cuts) && cl.cuts[j].Cmp(c) < 0 {
-			j++
-		}
-		below := big1
-		if j > 0 {
-			below = cl.cuts[j-1]
-		}
-		old := cl.slices[j]
-		lo, hi := s.freshName("sl"), s.freshName("sl")
-		f := new(big.Int).Quo(c, below) // slice j is split at factor f
-		s.send(fmt.Sprintf("(declare-const %s Int)(declare-const %s Int)", lo, hi))
-		s.send(fmt.Sprintf("(assert (= %s (+ %s (* %s %s))))", old, lo, lit(f), hi))
-		s.send(fmt.Sprintf("(assert (and (<= 0 %s) (< %s %s)))", lo, lo, lit(f)))
-		if j < len(cl.cuts) {
-			up := new(big.Int).Quo(cl.cuts[j], c)
-			s.send(fmt.Sprintf("(assert (and (<= 0 %s) (< %s %s)))", hi, hi, lit(up)))
-		} else {
-			s.boundTop(hi, X, c)
-		}
-		cl.cuts = append(cl.cuts[:j], append([]*big.Int{c}, cl.cuts[j:]...)...)
-		ns := append([]string{}, cl.slices[:j]...)
-		ns = append(ns, lo, hi)
-		ns = append(ns, cl.slices[j+1:]...)
-		cl.slices = ns
-		pos = j
+	j := 0
+	for j < len(cl.cuts) && cl.cuts[j].Cmp(c) < 0 {
+		j++
 	}
+	below := big1
+	if j > 0 {
+		below = cl.cuts[j-1]
+	}
+	old := cl.slices[j]
+	lo, hi := s.freshName("sl"), s.freshName("sl")
+	f := new(big.Int).Quo(c, below) // slice j is split at factor f
+	s.send(fmt.Sprintf("(declare-const %s Int)(declare-const %s Int)", lo, hi))
+	s.send(fmt.Sprintf("(assert (= %s (+ %s (* %s %s))))", old, lo, lit(f), hi))
+	s.send(fmt.Sprintf("(assert (and (<= 0 %s) (< %s %s)))", lo, lo, lit(f)))
+	if j < len(cl.cuts) {
+		up := new(big.Int).Quo(cl.cuts[j], c)
+		s.send(fmt.Sprintf("(assert (and (<= 0 %s) (< %s %s)))", hi, hi, lit(up)))
+	} else {
+		s.boundTop(hi, X, c)
+	}
+	cl.cuts = append(cl.cuts[:j], append([]*big.Int{c}, cl.cuts[j:]...)...)
+	ns := append([]string{}, cl.slices[:j]...)
+	ns = append(ns, lo, hi)
+	ns = append(ns, cl.slices[j+1:]...)
+	cl.slices = ns
+	return j
+}
+
+func (s *Session) defSlice1(t *Term) string {
+	X := t.Args[0]
+	c := t.Args[1].C
+	cl := s.cutsFor(X, c)
+	pos := s.ensureCut(cl, X, c)
 	// expression
 	var parts []string
 	if t.Op == ODiv {
@@ -553,6 +618,9 @@ func (s *Session) CheckT(timeout time.Duration, hard, wantModel bool, extra ...*
 	strategies := []string{"(check-sat)", hardTactic}
 	if hard || os.Getenv("VERIF_TACTIC_FIRST") != "" {
 		strategies = []string{hardTactic, "(check-sat)"}
+	}
+	if s.OneStrategy {
+		strategies = strategies[:1]
 	}
 	res := Unknown
 	for _, st := range strategies {
